@@ -21,15 +21,18 @@ Sources == <<"$A", "(list $A $B)", "'($A)", "[$A {:k $A}]", "(str \"$A\" $A)", "
              "$UNKNOWN", "\n$A", ";; $A 5\n$A", "(f $A $A)", "(do $A) ; $B", "[$A\n$B]", ";; $B 7\n\n$B", "$A ;; $A 1",
              "\"a\n$A\"", "(quote $1)", "{:k $A-B}", "¬$A¬", "($B $A)", "  $A", ";; comment\n$A", "#{$A}", "(fn [] $A)",
              \* multi-line raw strings of the source holding comment-looking and preamble-looking lines
+             "(list $MODULE $A)",
              "[$A ¬a\n; b $A\n;; $A 1\nc¬]", "(str ¬\n   ; y\nz¬ $A)", "¬x\n\n;; $B 2\n¬ $A">>
 
 Values == <<"1", "nil", "-5", "\"s\"", "\"a\\\"b\"", "\"a\\\\b\"", "\"a;b\"", "\"(a)\"", "\"a\\nb\"", "\"{\\\"a\\\":1}\"",
             "\"{\\\"a\\\":\\n1}\"", "\"{\\\"a\\\":1}\\n\\n;; $B 1\\n\\n{\\\"b\\\":2}\"", "\"x\\n\\n;; $B 1\"", "sym", "$B", ":k",
             "(1 \"a\\nb\" [c])", "{:a \"{\\\"x\\\":\\n2}\"}", "[]", "\"$B\"", "\";; $B 9\"", "\"¬\"", "\"{\\\"¬\\\"}\"", "(quote x)",
             "\"\"", "\" \"", "true", "#{\"a\"}", "\"{\\\"a\\\":1}\\n\"", "\"\\n\"",
-            "\"a\tb\"", "\"a\rb\"", "\"é ʞ\"", "[\"x\ty\" {:k \"\r\"}]">>
+            "\"a\tb\"", "\"a\rb\"", "\"é ʞ\"", "[\"x\ty\" {:k \"\r\"}]",
+            \* hash-maps whose KEYS need the printer's escapes
+            "{\"a\\\"b\" 1}", "{\"x\\n;; $B 9 ;\" 1}", "{\"{\\\"k\\\":1}\" 2}", "[{\"a;b\" {\"c\\\\d\" 3}}]">>
 
-Names == <<"$A", "$B", "$A-B", "$1", "$A_B">>
+Names == <<"$A", "$B", "$A-B", "$1", "$A_B", "$MODULE">>
 
 Srcs == Sources
 \* "$B" stands for the SYMBOL named $B (constructible from Go only)
